@@ -76,7 +76,7 @@ def _geometry(rng, img, profile):
     tags = []
     kinds = ['compact', 'multi', 'tails']
     if w >= 32:
-        kinds += ['page_edge', 'same_slot', 'far', 'top', 'window']
+        kinds += ['page_edge', 'same_slot', 'far', 'top', 'window', 'big_low_far']
         if profile in ('c07', 'c11', 'c19'):
             kinds += ['page_edge', 'same_slot', 'far', 'top', 'window', 'same_slot']
     elif w == 16:
@@ -164,6 +164,16 @@ def _geometry(rng, img, profile):
             # a segment that holds the address the native fill constant points to
             img.add_seg((MAGIC >> 6) & ~1, 4, 4)
             tags.append('magic_target_seg')
+    if kind == 'big_low_far':
+        # a low segment longer than one 2^14-word page (data only at its start: page 0 gets loaded and lies wholly
+        # inside the segment) plus an initialised far segment whose page index is congruent to a low page mod 64/128
+        img.segs[0][1] = low_len + rng.choice([20000, 32768, 40000, 70000])
+        img.segs[0][1] += img.segs[0][1] & 1
+        far_page = rng.choice([64, 128, 1024, 1 << 12, (1 << 26) if w == 64 else 2048, 65, 129])
+        n = rng.choice([4, 8, 16])
+        img.add_seg(far_page * PAGE + rng.choice([0, 2, 100]), n, n)
+        if rng.random() < 0.5:
+            img.add_seg((far_page + rng.choice([64, 128])) * PAGE, 4, 4)
     if kind == 'top':
         n = rng.choice([2, 4, 8, 16])
         img.add_seg(mw - n, n, n)
@@ -463,6 +473,56 @@ def gen_io_loop(rng, w=None):
     return case, {'tags': ['io_loop'], 'ops': [], 'pool': [], 'in_seg_bits': [], 'wiring': []}
 
 
+def gen_many_pages(rng, w=None):
+    """33..72 tiny segments, each on its own 2^14-word page, page indices chosen so that several collide in the
+    native page table when it grows (p and p+64 / p+128 / p+256); one op per segment, hopping from page to page,
+    each flipping a bit in yet another page - so every page is loaded before the run and touched during it"""
+    if w is None:
+        w = rng.choice([32, 64])
+    img = Img(w)
+    ww = img.ww
+    dw = 2 * w
+    npages = rng.choice([33, 34, 40, 65, 66, 72])
+    max_page = (max_words(w) // PAGE) - 1
+    pages = {0}
+    base = rng.choice([1, 2, 5, 37])
+    while len(pages) < npages:
+        r = rng.random()
+        if r < 0.5:
+            p = base + rng.randrange(0, 40)
+        elif r < 0.8:
+            p = rng.choice(sorted(pages)) + rng.choice([64, 128, 256, 192])
+        else:
+            p = rng.randrange(1, min(max_page, 5000))
+        if 0 < p <= max_page:
+            pages.add(p)
+    pages = sorted(pages)
+    segs = {}
+    for p in pages:
+        off = rng.choice([0, 2, 100, PAGE - 8]) if p else 0
+        n = 8
+        img.add_seg(p * PAGE + off, n, n)
+        segs[p] = p * PAGE + off
+    order = [0] + rng.sample(pages[1:], len(pages) - 1)
+    for i, p in enumerate(order):
+        ip = segs[p] << ww
+        nxt = (segs[order[i + 1]] << ww) if i + 1 < len(order) else ip
+        tgt = rng.choice(pages)
+        f = ((segs[tgt] + 4 + rng.randrange(4)) << ww) + rng.randrange(w)     # a data word of some other page
+        if rng.random() < 0.15:
+            f = dw + rng.randrange(2)
+        img.put_op(ip, f, nxt)
+    case = img.to_case()
+    case['file_order'] = rng.choice(['asc', 'desc', f'shuffle:{rng.getrandbits(16)}'])
+    case['version'] = rng.choice([0, 1, 2, 3])
+    case['lzma_preset'] = 0
+    case['input_bits'] = []
+    case['script'] = {}
+    case['fault'] = None
+    case['probe_words'] = []
+    return case, {'tags': ['many_pages'], 'ops': [], 'pool': [], 'in_seg_bits': [], 'wiring': []}
+
+
 def gen_input(rng):
     n = rng.choice([0, 0, 1, 2, 3, 7, 8, 9, 16, 33, 64])
     return [rng.randrange(2) for _ in range(n)]
@@ -471,6 +531,8 @@ def gen_input(rng):
 def gen_case(rng, profile='c01', w=None):
     if w is None and rng.random() < 0.1:
         return gen_io_loop(rng)
+    if w is None and profile in ('c07', 'c11', 'c01') and rng.random() < 0.02:
+        return gen_many_pages(rng)
     case, meta = gen_image(rng, profile, w)
     case['input_bits'] = gen_input(rng)
     case['script'] = {}
